@@ -239,7 +239,7 @@ class Mismatch(Exception):
         self.what, self.detail = what, detail
 
 
-KNOWN_STATISTICS = ("mean", "std", "number", "max", "min")
+KNOWN_STATISTICS = ("mean", "std", "number", "max", "min", "one")
 
 
 def nan_stats(values):
@@ -272,10 +272,26 @@ def collapsed_reference(snap, ref_side, funcs):
                      for c in range(width)]
             for f in funcs:
                 stat = funcs[f] if isinstance(funcs, dict) else f
+                if stat == "one":
+                    # the values of one of the partners, whichever
+                    entry["%s/%s_%s" % (other, local, f)] = OneOf(
+                        tuple(rows[o]) for o in others)
+                    continue
                 entry["%s/%s_%s" % (other, local, f)] = tuple(
                     s[stat] for s in stats)
         out[ref_ids[r][0]] = entry
     return out
+
+
+class OneOf(list):
+    """Expected value: any one of these rows (values as stored in the
+    snapshot: NaN is spelled "nan")."""
+
+
+def same(stored, observed):
+    if stored == "nan":
+        return observed == "nan"
+    return close(stored, observed)
 
 
 def close(expected, observed):
@@ -316,6 +332,14 @@ def compare_collapsed(collapsed, snap, ref_side, funcs):
                            "collocation")[1]
             for ref_id, row in zip(ids, rows):
                 exp = expected[ref_id][name]
+                if isinstance(exp, OneOf):
+                    if not any(len(e) == len(row) and all(map(same, e, row))
+                               for e in exp):
+                        return (f + "-wrong", [list(map(scalar, e))
+                                               for e in exp], list(row),
+                                "%s of reference point id=%s (any one "
+                                "partner)" % (name, ref_id))
+                    continue
                 if len(exp) != len(row) or not all(map(close, exp, row)):
                     return (f + "-wrong", list(map(scalar, exp)), list(row),
                             "%s of reference point id=%s" % (name, ref_id))
